@@ -19,3 +19,4 @@ def run(ctx):
     atomics.M3(ctx)
     atomics.M4(ctx)
     atomics.M5(ctx)
+    atomics.M6(ctx)
